@@ -123,7 +123,7 @@ def path(J, ctx, job):
         return {"seqs": seqs, "prefix": prefix, "indels": indels, "k": k, "read": model_str(m, read)}
     try:
         mt = it.call_value(it.getattr(idx, "match_to"), [read], {})
-    except (AssertionError, IndexError, KeyError, TypeError, ValueError) as e:
+    except (AssertionError, IndexError, KeyError, TypeError, ValueError, AttributeError) as e:
         J.obligations += 1
         J.violated += 1
         if J.cex is None and ctx.is_sat([]) == "sat":
